@@ -134,6 +134,7 @@ namespace cs
             std::function<Handle()>            move_joint;  // move-with-allocator into a new object
             std::function<void()>              reset;
             std::function<bool(Handle&)>       same_type_swap; // swap with another handle of the same type
+            std::function<void(Handle&)>       move_assign_from; // *this = std::move(other), same type
             std::function<std::vector<int>()>  contents;
             std::function<void()>              mutate;
             std::function<void(const char*)>   layout_check;
@@ -265,6 +266,11 @@ namespace cs
                 auto op = std::static_pointer_cast<fm::joint_ptr<JTy, LeafA>>(other.ptr);
                 swap(*sp, *op);
                 return true;
+            };
+            h.move_assign_from = [sp](Handle& other)
+            {
+                auto op = std::static_pointer_cast<fm::joint_ptr<JTy, LeafA>>(other.ptr);
+                *sp     = std::move(*op);
             };
             return h;
         }
@@ -589,6 +595,47 @@ namespace cs
                         violate("C11", "swap_wrong", "swap of two joint_ptrs did not exchange the objects");
                     stats().hit("reach.joint_swap");
                 }
+                else if (o.kind == "asj" && c.hs.size() >= 2)
+                {
+                    // move assignment of joint_ptrs (possibly of different allocator objects): the target's object
+                    // goes back to the target's old allocator, the target takes over object and allocator
+                    auto i = std::size_t(o.arg(0)) % c.hs.size(), j = std::size_t(o.arg(1)) % c.hs.size();
+                    if (i == j || c.hs[i].type != c.hs[j].type || c.hs[i].type == 9)
+                        continue;
+                    auto& T = c.hs[i];
+                    auto& S = c.hs[j];
+                    auto  src     = S.contents();
+                    auto  alive0  = ctl().alive.size();
+                    auto  live_t0 = env.leaf[T.leaf].live.size();
+                    auto  live_o0 = env.leaf[1 - T.leaf].live.size();
+                    env.log.begin_op(0);
+                    T.move_assign_from(S);
+                    ++c.cases;
+                    if (!T.empty)
+                    {
+                        if (long(alive0 - ctl().alive.size()) != T.elements)
+                            violate("C11,C20", "element_count", "move assignment destroyed %ld element(s) of the "
+                                                                "target's old object, it held %ld",
+                                    long(alive0 - ctl().alive.size()), T.elements);
+                        if (env.leaf[T.leaf].live.size() + 1 != live_t0 || env.leaf[1 - T.leaf].live.size() != live_o0)
+                            violate("C11", "wrong_allocator", "move assignment did not give the target's old block "
+                                                              "back to the allocator it came from");
+                    }
+                    if (!env.log.problem.empty())
+                        violate("C11,C09", "release_mismatch", "move assignment of joint_ptrs: %s",
+                                env.log.problem.c_str());
+                    if (T.contents() != src)
+                        violate("C11", "move_differs", "move assignment of joint_ptrs changed the contents");
+                    if (!S.contents().empty())
+                        violate("C11", "move_differs", "the source of a joint_ptr move assignment still owns an object");
+                    T.elements = S.elements;
+                    T.empty    = S.empty;
+                    T.leaf     = S.leaf;
+                    *T.leafp   = *S.leafp;
+                    S.elements = 0;
+                    S.empty    = true;
+                    stats().hit("reach.joint_ptr_move_assigned");
+                }
                 else if (o.kind == "dropj" && !c.hs.empty())
                 {
                     auto i = std::size_t(o.arg(0)) % c.hs.size();
@@ -598,6 +645,70 @@ namespace cs
                         h.destroy();
                     else
                         check_destroy(c, h, o.arg(1) % 2 ? "reset()" : "destruction");
+                }
+                else if (o.kind == "sj")
+                {
+                    // a stateless allocator: the overloads taking the allocator by const reference / as a temporary
+                    using T   = JT<EA, EB, EC>;
+                    using SLJ = StatelessLeaf<2>;
+                    SLJ::state() = &env.leaf[2];
+                    std::size_t n1 = std::size_t(o.arg(0)) % 9, n2 = std::size_t(o.arg(1)) % 9,
+                                n3 = std::size_t(o.arg(2)) % 5;
+                    Args        x{{n1, n2, n3}, F_SIZE, int(oi) * 10};
+                    std::size_t pos = sizeof(T);
+                    if (n1)
+                        pos = align_up(pos, alignof(EA)) + n1 * sizeof(EA);
+                    if (n2)
+                        pos = align_up(pos, alignof(EB)) + n2 * sizeof(EB);
+                    if (n3)
+                        pos = align_up(pos, alignof(EC)) + n3 * sizeof(EC);
+                    std::size_t need = pos - sizeof(T), add = need + std::size_t(o.arg(3)) % 200;
+                    auto        alive0 = ctl().alive.size();
+                    env.log.begin_op(0);
+                    const SLJ sl{};
+                    {
+                        auto p = fm::allocate_joint<T>(sl, fm::joint_size(add), typename T::size_tag{}, x);
+                        ++c.cases;
+                        auto& first = env.log.calls.back();
+                        if (first.op != 'n' || first.size != sizeof(T) + add)
+                            violate("C11", "block_request", "allocate_joint (allocator by const reference) asked for "
+                                                            "%c(size %zu), expected node(size %zu)",
+                                    first.op, first.size, sizeof(T) + add);
+                        auto used = fm::detail::get_stack(*p).capacity_used(fm::detail::get_memory(*p));
+                        try
+                        {
+                            auto q = fm::clone_joint(sl, *p); // const overload
+                            auto& second = env.log.calls.back();
+                            if (second.op != 'n' || second.size != sizeof(T) + used)
+                                violate("C11", "block_request", "clone_joint (allocator by const reference) asked "
+                                                                "for %c(size %zu), expected node(size %zu): what the "
+                                                                "original uses",
+                                        second.op, second.size, sizeof(T) + used);
+                            if (q->a.size() != n1 || q->b.size() != n2 || q->c.size() != n3 || q->value != p->value)
+                                violate("C11", "clone_differs", "clone_joint (const overload) produced other contents");
+                            for (std::size_t i = 0; i < n1; ++i)
+                                if (q->a[i].value != p->a[i].value)
+                                    violate("C11", "clone_differs", "clone_joint (const overload): element differs");
+                            auto q2 = fm::clone_joint(SLJ{}, *q); // temporary allocator
+                            q2.reset();
+                            q.reset();
+                        }
+                        catch (const fm::out_of_fixed_memory&)
+                        {
+                            violate("C11", "spurious_out_of_memory", "clone_joint (allocator by const reference) of an "
+                                                                     "object that uses %zu of %zu additional bytes "
+                                                                     "threw out_of_fixed_memory",
+                                    used, add);
+                        }
+                        p.reset();
+                    }
+                    if (!env.log.problem.empty())
+                        violate("C11,C09", "release_mismatch", "joint objects on a stateless allocator: %s",
+                                env.log.problem.c_str());
+                    if (!env.leaf[2].live.empty() || ctl().alive.size() != alive0)
+                        violate("C11,C20", "memory_leaked", "joint objects on a stateless allocator left memory or "
+                                                            "elements behind");
+                    stats().hit("reach.joint_const_allocator_overloads");
                 }
                 else if (o.kind == "jvm" && !c.hs.empty())
                 {
